@@ -54,6 +54,35 @@ def judge_acceptance(ctx, before, offspring, after, tag):
             ctx.violation("acceptance/other_offspring/" + tag, "a non-dominated, non-dominating offspring must replace exactly one member", wit())
 
 
+class _FirstRunView:
+    """what the problem had recorded when the first run ended (the second run appended to the same lists)"""
+
+    def __init__(self, p, k0, c0):
+        self._p = p
+        self.individuals = list(p.individuals[:k0])
+        self.calls = [c for c in p.calls if c.n < self._n_calls_first(p, c0)]
+        self.failed = None
+
+    @staticmethod
+    def _n_calls_first(p, c0):
+        ok = 0
+        for c in p.calls:
+            if c.exc is None and c.result is not None:
+                ok += 1
+                if ok == c0:
+                    return c.n + 1
+        return 0 if c0 == 0 else len(p.calls)
+
+    def ok_calls(self):
+        return [c for c in self.calls if c.exc is None and c.result is not None]
+
+    def populations(self):
+        out = {}
+        for i in self.individuals:
+            out.setdefault(i.population_id, []).append(i)
+        return out
+
+
 def run_case(ctx, name, params):
     from artap.individual import Individual
     r = ctx.rng(name, params["seed"])
@@ -68,7 +97,18 @@ def run_case(ctx, name, params):
         fr = ctx.rng("fail", params["seed"])
         streak = collections.defaultdict(int)
 
+        # some first runs are aborted in the middle by an exception that is not a transient failure (a bug in the user's model, a
+        # licence error, Ctrl-C turned into an exception): the caller sees it, keeps the algorithm object and runs it again
+        abort = {"at": None}
+        exp_total = N * G if algo == "nsga2" else N * (G + 1)
+        rerun = r.random() < 0.4
+        if rerun and r.random() < 0.6:
+            abort["at"] = r.randrange(0, exp_total)
+
         def script(call_no, vec, individual):
+            if abort["at"] is not None and call_no >= abort["at"]:
+                abort["at"] = None
+                return ValueError("injected non-transient failure: the run is aborted")
             if fail_rate and streak[individual.id] < 3 and fr.random() < fail_rate:
                 streak[individual.id] += 1
                 return fr.choice([TimeoutError, RuntimeError])("injected transient failure")
@@ -99,7 +139,42 @@ def run_case(ctx, name, params):
                 extra_["params"] = prm_
                 fail_rate = max(fail_rate, 0.2)
                 ctx.count("runs_with_coarse_precision_and_failures")
-            p, a, err = insitu.run_one(setup, script=script if fail_rate else None, **extra_)
+            aborted_first = abort["at"] is not None
+            p, a, err = insitu.run_one(setup, script=script if (fail_rate or aborted_first) else None, **extra_)
+            if rerun and not isinstance(err, insitu.RunTimeout) and (err is None or (aborted_first and isinstance(err, ValueError))):
+                # the same algorithm object runs again on the same problem: the second run must again record generations
+                # 0..G (NSGA-II: 1..G) of N designs with the full budget -- judged on what the second run appended
+                k0, c0 = len(p.individuals), len(p.ok_calls())
+                abort["at"] = None
+                p2, a2, err2 = insitu.run_one(setup, problem=p, algorithm=a)
+                ctx.count("second_runs_on_the_same_algorithm_object")
+                if aborted_first and err is not None:
+                    ctx.count("second_runs_after_an_aborted_run")
+                wit2 = lambda extra=None: {"algo": algo, "N": N, "G": G, "seed": setup["seed"], "first_run": "aborted by an injected "
+                                           "ValueError" if err is not None else "completed", "extra": extra}
+                if isinstance(err2, insitu.RunTimeout):
+                    ctx.count("runs_stopped_by_wall_clock_guard")
+                elif err2 is not None:
+                    ctx.violation("rerun/%s/exception" % algo, "second run of the same %s object raised %r" % (algo, err2), wit2())
+                    return
+                else:
+                    new = p.individuals[k0:]
+                    tags = collections.Counter(i.population_id for i in new)
+                    first_ = 1 if algo == "nsga2" else 0
+                    exp_ = {t: N for t in range(first_, G + 1)}
+                    if dict(tags) != exp_:
+                        ctx.violation("rerun/%s/generations" % algo, "second run of the same object recorded generations %s (tag: designs), "
+                                      "expected %d designs for each of %s" % (dict(sorted(tags.items(), key=lambda kv: str(kv[0]))), N, sorted(exp_)), wit2())
+                        return
+                    if len(p.ok_calls()) - c0 != exp_total:
+                        ctx.violation("rerun/%s/budget" % algo, "second run of the same object used %d successful evaluations, expected %d"
+                                      % (len(p.ok_calls()) - c0, exp_total), wit2())
+                        return
+                if err is not None:
+                    ctx.count("cases")
+                    return
+                # the first (completed) run is judged below on its own records
+                p = _FirstRunView(p, k0, c0)
         finally:
             pt.restore()
         ctx.count("runs")
@@ -127,7 +202,7 @@ def run_case(ctx, name, params):
         if ok_calls != exp_calls:
             ctx.violation("bookkeeping/%s/budget" % algo, "%d successful objective evaluations, expected %d" % (ok_calls, exp_calls), wit())
             return
-        if fail_rate and len(p.failed) != len(p.calls) - ok_calls:
+        if fail_rate and p.failed is not None and len(p.failed) != len(p.calls) - ok_calls:
             ctx.violation("bookkeeping/failed_list", "%d failed calls but %d logged in problem.failed" % (len(p.calls) - ok_calls, len(p.failed)), wit())
             return
         for t, inds in pops.items():
